@@ -17,6 +17,12 @@ select hub dies: counted as loop death).  A third group follows the corruptions 
 give a connection up (foreign version, length < 8, unknown type; and the unmodified message) with a
 peer that has RESET the connection right behind those bytes: shutdown() raises ENOTCONN, recv() raises
 ECONNRESET once the queued bytes are read, send() fails, close() raises - same containment oracle.
+A fourth group ("seg") hands the hostile stream out in two or three recv chunks whose boundaries lie INSIDE messages
+(every byte offset of the carrier instances, a boundary lattice for the others): the receiver has to judge a header
+before the body is there, and the rest arrives in a later recv with sibling traffic in between.  A fifth group ("big")
+sends messages whose DECLARED length is 65523 / 65524 / 65535 (and values around the recv sizes 2048 / 8192) with all of
+their bytes: every catalogue instance zero-extended to that length, unknown types, undecodable bodies and requests the
+switch refuses quoting them (an error reply that quotes L bytes is 12 + L bytes long).
 
 Oracle (DESIGN.md C10): (1) every step into the generator returns within a line budget; (2) the
 generator stays alive and keeps selecting on the siblings; (3) each sibling is delivered exactly its
@@ -40,12 +46,15 @@ PID = "C10"
 FILES = ("openflow/of_01.py", "datapaths/switch.py", "openflow/libopenflow_01.py", "ioworker/__init__.py")
 BUDGET = 200000
 MAXIT = 40                       # select rounds allowed to settle one scripted step
+MAXIT_BIG = 120                  # ... when the step hands over a message of up to 64 KiB (33 recvs of 2048 bytes)
+BUDGET_BIG = 3000000             # line budget per step for those: decoding a 64 KiB list body is ~2.5e5 lines of honest work
 HOSTILE = 1
 EMB_VALUES = (0, 1, 4, 7, 8, 9, 16, 0xffff)
 VERSIONS = (0, 2, 4, 0xff)
 TYPE_EDGE = tuple(range(0, 24)) + (0x7f, 0x80, 0xfe, 0xff)
 
 _CUR = [None]
+_INSTS = [None]                  # built once in the parent, inherited by the forked workers
 
 
 class BudgetExceeded (BaseException):
@@ -133,15 +142,27 @@ class RecLog (object):
 
 class Piece (object):
   """One scripted recv chunk.  A glued chunk keeps its constituent pieces in `parts`."""
-  __slots__ = ("data", "valid", "label", "fn", "eof", "parts", "fault")
+  __slots__ = ("data", "valid", "label", "fn", "eof", "parts", "fault", "cont")
   def __init__ (self, data=None, valid=False, label="", fn=None, eof=False, parts=None):
     self.data = data; self.valid = valid; self.label = label; self.fn = fn; self.eof = eof
     self.parts = parts
+    self.cont = False          # a later segment of a stream whose messages are listed in the first segment's `parts`
     self.fault = None          # name in PEER_FAULTS: the peer resets the connection right behind this chunk
 
 
 def glued (*ps):
   return Piece(b"".join(p.data for p in ps), False, "+".join(p.label for p in ps), parts=list(ps))
+
+
+def segmented (pieces, cuts):
+  """The byte stream of `pieces` handed out in len(cuts)+1 recv chunks whose boundaries are the given stream
+  offsets - anywhere, inside a message as well as between two.  The first chunk lists the messages in `parts`."""
+  data = b"".join(p.data for p in pieces)
+  edges = [0] + sorted(set(c for c in cuts if 0 < c < len(data))) + [len(data)]
+  out = [Piece(data[a:b], False, "seg@%d" % a) for a, b in zip(edges, edges[1:])]
+  out[0].parts = list(pieces); out[0].label = "+".join(p.label for p in pieces) + "/seg"
+  for c in out[1:]: c.cont = True
+  return out
 
 
 def xid_of (b):
@@ -159,6 +180,8 @@ class World (object):
     self.dead_site = None
     self.tripped = False
     self.livelock = False
+    self.maxit = MAXIT
+    self.budget = BUDGET
     self.nsend = 0
     self.deliv = [[], [], []]   # per connection: dict(raw, cls, closed, obs)
     self.pushed = [[], [], []]  # per connection: Pieces actually handed to the socket (in order)
@@ -180,7 +203,7 @@ class World (object):
   def step (self, r, w=()):
     if not self.select_ok(): return False
     self.nsend += 1
-    MonBudget.arm(BUDGET)
+    MonBudget.arm(self.budget)
     try:
       if self.sel is None: self.sel = next(self.g)
       else: self.sel = self.g.send((list(r), list(w), []))
@@ -196,7 +219,7 @@ class World (object):
     return not (self.dead or self.tripped)
 
   def settle (self):
-    for n in range(MAXIT):
+    for n in range(self.maxit):
       if not self.select_ok(): return False
       r, w = self.ready()
       if not r and not w: return True
@@ -552,7 +575,7 @@ def build (case, insts):
   side = case["side"]; inst = insts[case["inst"]]
   V1 = valid_msg(side, HOSTILE, 0); V2 = valid_msg(side, HOSTILE, 1)
   hs = handshake(side, HOSTILE)
-  pos = case["pos"]; glue = bool(case.get("glue"))
+  pos = case["pos"]; glue = bool(case.get("glue")); cuts = case.get("cuts")
   if pos.startswith("hs"):
     # the corruption hits the k-th message of the handshake itself (valid prefix, handshake state)
     k = int(pos[2:]); p = hs[k]; f, val = case["field"], case["val"]
@@ -564,7 +587,9 @@ def build (case, insts):
     M = None
   else:
     m = corrupt(inst, case["field"], case["val"])
-    M = Piece(m, case["field"] == "none" and side[0] in inst.to, "M")
+    ok = case["field"] == "none" and side[0] in inst.to
+    if ok and getattr(inst, "bigbase", None): ok = R.classify(m)[0] == "ok"      # zero padding makes some types malformed
+    M = Piece(m, ok, "M")
   if M is None:
     pass
   elif case.get("eof"):
@@ -573,10 +598,16 @@ def build (case, insts):
     elif pos == "after": chunks = hs + [V1, V2, M, Piece(eof=True)]
     else: raise ValueError(pos)
   elif pos == "first":
-    chunks = ([glued(M, hs[0])] + hs[1:] + [glued(V1, V2)]) if glue else [M] + hs + [V1, V2]
+    if cuts: chunks = segmented([M, hs[0]], cuts) + hs[1:] + [glued(V1, V2)]
+    else: chunks = ([glued(M, hs[0])] + hs[1:] + [glued(V1, V2)]) if glue else [M] + hs + [V1, V2]
   else:
     order = dict(before=[M, V1, V2], between=[V1, M, V2], after=[V1, V2, M])[pos]
-    chunks = hs + ([glued(*order)] if glue else order)
+    if cuts:
+      # recv boundaries at the given offsets relative to the first byte of M (negative: inside the message before it)
+      m0 = sum(len(p.data) for p in order[:order.index(M)])
+      chunks = hs + segmented(order, [m0 + c for c in cuts])
+    else:
+      chunks = hs + ([glued(*order)] if glue else order)
   if case.get("env") in PEER_FAULTS:
     # the peer resets the connection right behind the chunk with the corrupted message: nothing follows
     k = next(k for k, c in enumerate(chunks) if c.label.startswith("M") or (c.parts and any(p.label.startswith("M") for p in c.parts)))
@@ -602,6 +633,7 @@ def build (case, insts):
 def field_class (case, inst):
   fc = _field_class(case, inst)
   if case.get("env") in PEER_FAULTS: fc += "+peer-" + case["env"]
+  if case.get("cuts"): fc += "+split"
   return fc
 
 
@@ -625,9 +657,13 @@ def _field_class (case, inst):
 def msg_class (case, inst):
   if case["pos"].startswith("hs"):
     return "handshake." + inst.name
+  big = getattr(inst, "bigbase", None)
   if case["field"] == "type":
     v = case["val"]
-    return "as:" + (W.TYPE_NAMES[v] if v < len(W.TYPE_NAMES) else "unknown-type")
+    return ("big:" if big else "") + "as:" + (W.TYPE_NAMES[v] if v < len(W.TYPE_NAMES) else "unknown-type")
+  if big:
+    # declared length class: up to 65523 an error reply quoting the whole message still fits a 16 bit length
+    return "big:%s:%s" % (big, "len<=65523" if inst.L <= 65523 else "len>65523")
   return inst.name
 
 
@@ -650,6 +686,7 @@ def execute (case, insts, alt_from=None):
         if off + k >= alt_from: d[k] ^= 0xff
       p.data = bytes(d); off += len(d)
   w = CtlWorld() if case["side"] == "ctl" else SwWorld()
+  if getattr(insts[case["inst"]], "bigbase", None): w.maxit = MAXIT_BIG; w.budget = BUDGET_BIG
   old = sys.stderr; sys.stderr = io.StringIO()
   try:
     w.apply_env(case.get("env"))
@@ -688,9 +725,13 @@ def judge (case, insts, w, differential=True):
   # reference view of the hostile byte stream
   stream = b""; valid_at = {}
   for chunk in w.pushed[h]:
-    for p in (chunk.parts or [chunk]):
-      if p.valid: valid_at[len(stream)] = p.data
-      stream += p.data
+    if chunk.parts:
+      o = len(stream)
+      for p in chunk.parts:
+        if p.valid: valid_at[o] = p.data
+        o += len(p.data)
+    elif chunk.valid and not chunk.cont: valid_at[len(stream)] = chunk.data
+    stream += chunk.data
   units, tail, why = R.frame(stream)
   def is_valid (k): return valid_at.get(units[k][0]) == units[k][1]
   lname = "OpenFlow_01_Task.run" if side == "ctl" else "RecocoIOLoop.run"
@@ -700,7 +741,7 @@ def judge (case, insts, w, differential=True):
     subj = ["hdr.length<8"] if why == "unframeable" else [mc, fc]
     culprit = " (looping on a %s header with length %d)" % (tname(tail[1]), struct.unpack_from("!H", tail, 2)[0]) if why == "unframeable" else ""
     if w.tripped:
-      v("1", "nonterminating", subj, "a step into %s exceeded %d lines%s" % (lname, BUDGET, culprit))
+      v("1", "nonterminating", subj, "a step into %s exceeded %d lines%s" % (lname, w.budget, culprit))
     else:
       v("1", "livelock", subj, "%s needed more than %d select rounds to consume one scripted step" % (lname, MAXIT))
     return bad, ("tripped" if w.tripped else "livelock",)
@@ -754,7 +795,11 @@ def judge (case, insts, w, differential=True):
       k = next((k for k in range(j, len(units)) if raw == units[k][1]), None)
       if k is None:
         k = next((k for k in range(j, len(units)) if is_valid(k) and raw[1] == units[k][1][1] and raw[4:8] == units[k][1][4:8]), None)
-    if k is None and raw is not None and len(raw) >= 8:
+    # a HELLO of a foreign version is let through whatever its length (unconstrained, see assumptions); pox re-packs it
+    # without its body, which is no evidence about where those 8 bytes came from
+    free_hello = (k is None and raw is not None and len(raw) >= 8 and j < len(units) and R.classify(units[j][1])[1] == "hello-version"
+                  and raw[:2] == units[j][1][:2] and raw[4:8] == units[j][1][4:8])
+    if k is None and raw is not None and len(raw) >= 8 and not free_hello:
       # a delivered message that is no unit of the reference framing but sits INSIDE one: bytes within a
       # message's declared length were decoded as a message of their own
       host = next((u for (o, u) in units if raw in u and not u.startswith(raw)), None)
@@ -914,7 +959,7 @@ def reset_cases (side, insts, quick):
   out = []
   envs = ("reset", "reset+close-raises") if quick else tuple(sorted(PEER_FAULTS))
   for ii, inst in enumerate(insts):
-    if inst.big: continue
+    if inst.big or (inst.groups is not None and "reset" not in inst.groups): continue
     vals = [("none", 0)] + [("version", v) for v in VERSIONS] + [("hdr.length", v) for v in range(8)] + [("type", 22), ("type", 0xff)]
     for (f, v) in vals:
       for pos in ("first", "before", "between", "after"):
@@ -922,6 +967,121 @@ def reset_cases (side, insts, quick):
           if quick and not glue and pos != "between": continue
           for e in envs:
             out.append(dict(side=side, inst=ii, name=inst.name, field=f, val=v, pos=pos, glue=glue, eof=False, env=e))
+  return out
+
+
+# -- segmentation: recv boundaries inside the hostile stream ---------------------------------------
+SEG_CARRIERS = ("ECHO_REQUEST.carrier", "VENDOR.carrier", "ECHO_REQUEST.dense")
+SEG_TYPES = (2, 14, 18)          # re-typed as: ECHO_REQUEST (any body), FLOW_MOD (lists), BARRIER_REQUEST (fixed length)
+
+def seg_corruptions (inst, core_only=False):
+  """(field, value) pairs: the header corruptions a receiver has to judge BEFORE the whole message is buffered, the
+  unmodified message, and (not core_only) re-typing to known types and the embedded length fields."""
+  n = len(inst.data)
+  out = [("none", 0), ("type", 22), ("type", 0xff), ("version", 0), ("version", 2), ("hdr.length", 7),
+         ("hdr.length", n + 8), ("ver+len", (0x47 << 16) | 0x5420)]
+  if not core_only:
+    out += [("type", t) for t in SEG_TYPES if t != inst.typ]
+    out += [("hdr.length", v) for v in (8, n - 1, n + 1) if v >= 8 and v != n]
+    for (label, off) in inst.emb:
+      cur = struct.unpack_from("!H", inst.data, off)[0]
+      out += [("emb:" + label, v) for v in (0, 0xffff) if v != cur]
+  return out
+
+
+def declared (inst, field, val):
+  n = len(inst.data)
+  if field == "hdr.length": return val
+  if field == "ver+len": return val & 0xffff
+  return n
+
+
+def cut_lattice (n, d, quick):
+  """Boundary offsets relative to the first byte of M (n bytes sent, d declared): inside the message before it, every
+  header field boundary, header end +-1, inside the body, around the declared end, around the real end, and in the
+  header / body of the message that follows."""
+  if quick: c = {-1, 1, 4, 7, 8, 9, n // 2, d - 1, n - 1, n + 1, n + 8}
+  else: c = {-9, -1, 1, 2, 3, 4, 5, 6, 7, 8, 9, 12, 16, n // 2, d - 1, d, d + 1, n - 1, n, n + 1, n + 2, n + 4, n + 7, n + 8, n + 9, n + 12}
+  return sorted(c)
+
+
+def seg_cases (side, insts, quick):
+  """The hostile stream handed out in two or three recv chunks whose boundaries lie INSIDE messages: the rest of a
+  message that the receiver has already judged by its header arrives in a later recv (sibling traffic in between)."""
+  out = []; seen = set()
+  V = [len(valid_msg(side, HOSTILE, k).data) for k in (0, 1)]
+  hello = 8
+  def room (pos, n):
+    # (lowest, highest) admissible cut relative to M's first byte: strictly inside the segmented region
+    if pos == "first": return 1, n + hello - 1
+    if pos == "before": return 1, n + V[0] + V[1] - 1
+    if pos == "between": return 1 - V[0], n + V[1] - 1
+    return 1 - V[0] - V[1], n - 1
+  def add (ii, inst, field, val, pos, cuts):
+    lo, hi = room(pos, len(inst.data))
+    cuts = tuple(sorted(set(c for c in cuts if lo <= c <= hi)))
+    if not cuts: return
+    k = (ii, field, val, pos, cuts)
+    if k in seen: return
+    seen.add(k)
+    out.append(dict(side=side, inst=ii, name=inst.name, field=field, val=val, pos=pos, glue=True, eof=False, cuts=list(cuts)))
+  positions = ("between",) if quick else ("first", "before", "between", "after")
+  for ii, inst in enumerate(insts):
+    if inst.groups is not None and "seg" not in inst.groups: continue
+    n = len(inst.data)
+    full = inst.name in SEG_CARRIERS or (not quick and not inst.big)
+    for pos in positions:
+      for (f, v) in seg_corruptions(inst):
+        d = declared(inst, f, v)
+        core = (f, v) in seg_corruptions(inst, core_only=True)
+        lat = cut_lattice(n, d, quick)
+        # two chunks
+        sweep = range(-9, n + 13) if (full and core) else lat
+        for c in sweep: add(ii, inst, f, v, pos, (c,))
+        # three chunks: header | part of the body | rest, and boundaries in two different messages
+        if core and (inst.name in SEG_CARRIERS or f in ("none", "type") or not quick):
+          l3 = ((-1, 2, 4, 7, 8, 9, n // 2, d - 1, n - 1, n + 1, n + 4, n + 8) if not quick else
+                (4, 8, 9, n // 2, n - 1, n + 4) if inst.name in SEG_CARRIERS else (4, 9, n - 1, n + 4))
+          for a in l3:
+            for b in l3:
+              if a < b: add(ii, inst, f, v, pos, (a, b))
+  return out
+
+
+def cut_class (case, inst):
+  """Where the recv boundaries lie, for the outcome digest."""
+  n = len(inst.data); out = []
+  for c in case.get("cuts") or ():
+    out.append("prev" if c < 0 else "start" if c == 0 else "hdr" if c < 8 else "hdr-end" if c == 8 else
+               "body" if c < n else "end" if c == n else "next-hdr" if c < n + 8 else "next")
+  return tuple(out)
+
+
+# -- declared lengths near 64 KiB (and around the recv sizes) whose bytes all arrive ---------------------
+def big_cases (side, insts, quick):
+  out = []; seen = set()
+  def add (ii, inst, field, val, pos, glue):
+    k = (ii, field, val, pos, glue)
+    if k in seen: return
+    seen.add(k)
+    out.append(dict(side=side, inst=ii, name=inst.name, field=field, val=val, pos=pos, glue=glue, eof=False))
+  positions = ("between",) if quick else ("first", "before", "between", "after")
+  for ii, inst in enumerate(insts):
+    base = getattr(inst, "bigbase", None)
+    if base is None: continue
+    edge = inst.L in R.BIG_EDGE
+    core = base in R.BIG_CORE or base.count(".") and base.split(".")[1] in ("unknown", "unknown-buffer")
+    if quick and not (edge or core): continue
+    for pos in positions:
+      for glue in (True, False):
+        if quick and not glue and not (core and edge): continue
+        add(ii, inst, "none", 0, pos, glue)
+        if pos != "between": continue
+        if base == "ECHO_REQUEST" or not quick:
+          for (f, v) in (("type", 22), ("type", 0xff), ("version", 2)): add(ii, inst, f, v, pos, glue)
+        if base.startswith("PACKET_OUT") or not quick:
+          for (label, off) in inst.emb:
+            for v in (0, 0xffff): add(ii, inst, "emb:" + label, v, pos, glue)
   return out
 
 
@@ -954,8 +1114,14 @@ def hs_cases (side, insts, quick):
   return out
 
 
+def load_insts ():
+  """The catalogue followed by the large-length instances (the catalogue's indices stay what they are)."""
+  base = R.catalogue()
+  return base + R.big_catalogue(base, R.BIG_EDGE + R.BIG_NEAR + R.BIG_RECV)
+
+
 def _worker (cases):
-  insts = R.catalogue()
+  insts = _INSTS[0] or load_insts()
   rep = Report(PID, "model_checking")
   for case in cases:
     side = case["side"]; inst = insts[case["inst"]]
@@ -967,11 +1133,12 @@ def _worker (cases):
     rep.evaluations += 1
     rep.transitions += w.nsend
     fc = field_class(case, inst)
-    rep.outcome((side, msg_class(case, inst), fc, case["pos"], case["glue"], summ, tuple(sorted(k for k, _ in bad))))
+    rep.outcome((side, msg_class(case, inst), fc, case["pos"], case["glue"], cut_class(case, inst), summ, tuple(sorted(k for k, _ in bad))))
     for key, text in bad:
       rep.violation(key, "%s side, %s %s=%s%s placed %s (%s): %s" %
                     ("controller" if side == "ctl" else "switch", inst.name, case["field"], case["val"],
-                     ("+EOF" if case["eof"] else "") + (" env=%s" % case["env"] if case.get("env") else ""), case["pos"], "one recv" if case["glue"] else "separate recvs", text),
+                     ("+EOF" if case["eof"] else "") + (" env=%s" % case["env"] if case.get("env") else ""), case["pos"],
+                     ("recv boundaries at offsets %r of the message" % (case["cuts"],)) if case.get("cuts") else "one recv" if case["glue"] else "separate recvs", text),
                     case if not (("hdr.length<8" in key or "unframeable" in key) and case["field"] != "hdr.length") else
                     dict(case, note="the header with length < 8 is a by-product of the mis-framing this corruption causes"))
     if not bad and rep.evaluations % 400 == 1:
@@ -983,6 +1150,8 @@ def _worker (cases):
 def run (cfg):
   R.selftest()
   insts = R.catalogue()
+  allinsts = _INSTS[0] = load_insts()
+  assert [i.name for i in allinsts[:len(insts)]] == [i.name for i in insts]
   quick = cfg.quick
   rep = Report(PID, "model_checking")
   cases = []
@@ -990,11 +1159,16 @@ def run (cfg):
     for ii, inst in enumerate(insts):
       for group in ("len", "type", "misc", "trunc"):
         if cfg.only and cfg.only not in (side, inst.name, group, "%s/%s" % (side, inst.name)): continue
+        if inst.groups is not None and group not in inst.groups: continue
         cases.extend(cases_for(side, ii, inst, group, quick))
     if not cfg.only or cfg.only in (side, "hs"):
       cases.extend(hs_cases(side, insts, quick))
     if not cfg.only or cfg.only in (side, "reset"):
       cases.extend(reset_cases(side, insts, quick))
+    if not cfg.only or cfg.only in (side, "seg"):
+      cases.extend(seg_cases(side, insts, quick))
+    if not cfg.only or cfg.only in (side, "big"):
+      cases.extend(big_cases(side, allinsts, quick))
   # round-robin slices: every slice gets the same mix of cheap and expensive cases
   for r in pmap(_worker, split(cases, cfg.workers * 6), cfg.workers, seed=cfg.seed):
     rep.merge(r)
@@ -1012,24 +1186,44 @@ def run (cfg):
               "for every instance x {unmodified, version, header length 0..7, type 22/0xff} x position x chunking: the peer resets "
               "the connection behind the chunk with the corrupted message (fault sets reset, reset+close-raises; thorough also "
               "shutdown-enotconn, recv-reset, close-raises: shutdown -> ENOTCONN, recv -> ECONNRESET after the queued bytes, "
-              "send -> ECONNRESET, close -> raises)%s. distinct = "
-              "(side, message class, field class, position, chunking, deliveries/errors/closed/logged exceptions, verdict)"
-              % (len(insts), VERSIONS, EMB_VALUES,
+              "send -> ECONNRESET, close -> raises); plus segmentation: the stream [valid, M, valid] handed out in 2 or 3 recv "
+              "chunks with the boundaries INSIDE messages, the remainder arriving in a later select round together with sibling "
+              "traffic - for M in {unmodified, type 22/0xff, type re-typed to ECHO_REQUEST/FLOW_MOD/BARRIER_REQUEST, version 0/2, "
+              "header length 7/8/len-1/len+1/len+8, foreign version + length 0x5420, every embedded length field in {0, 0xffff}} "
+              "of every instance, boundary offsets (relative to M) from the lattice {-1, 1, 4, 7, 8, 9, len/2, declared-1, len-1, "
+              "len+1, len+8} (thorough: 26 points incl. every header byte), boundary pairs from {4, 9, len-1, len+4}; for the "
+              "three carrier instances (bodies made of complete valid messages: at offset 12 / 64, and a body that is nothing but "
+              "eight 8-byte echo requests) EVERY boundary offset -9..len+12 under the header corruptions (thorough: every "
+              "instance, positions first/before/between/after); plus large declared lengths whose bytes all arrive: every "
+              "instance zero-extended to L (valid for opaque-tailed types, malformed for fixed-length / list types), a statistics "
+              "request of unknown type with an L-byte body, a PACKET_OUT for an unknown buffer id filled by one vendor action "
+              "(L %% 8 == 0), L in %r (quick: these for every instance; L in %r only for ECHO_REQUEST, VENDOR, PACKET_OUT, "
+              "BARRIER_* and the two refused requests), unmodified and with type 22/0xff, version 2, actions_len / action len "
+              "0 / 0xffff, in one push (the socket hands out recv-size pieces: 2048 controller, 8192 switch) or separate pushes%s. distinct = "
+              "(side, message class, field class, position, chunking, boundary classes, deliveries/errors/closed/logged exceptions, verdict)"
+              % (len(insts), VERSIONS, EMB_VALUES, R.BIG_EDGE, R.BIG_NEAR + R.BIG_RECV,
                  " (quick tier reductions: the full type sweep 0..255 only at 'between' in one recv, type values 0..23,0x7f,0x80,0xfe,0xff at every "
                  "position in one recv (handshake group: these type values and lengths < 10 or within 8 of the valid one); position 'before' only in one recv; truncation+EOF as the first bytes only for cut points <= 12; "
                  "the 1068-byte desc stats reply only with lengths / cut points within 24 bytes of its start or 16 of its end)" if quick else ""))
-  rep.bound = dict(connections=3, hostile=1, corruptions_per_stream=1, line_budget_per_step=BUDGET, select_rounds_per_step=MAXIT)
+  rep.bound = dict(connections=3, hostile=1, corruptions_per_stream=1, line_budget_per_step=BUDGET, select_rounds_per_step=MAXIT,
+                   recv_boundaries_inside_messages=2, max_declared_length=65535, line_budget_per_step_64k_messages=BUDGET_BIG,
+                   select_rounds_per_step_64k_messages=MAXIT_BIG)
   rep.assumptions = ["select is answered honestly: readable = scripted socket with pending bytes/EOF or shut down for reading, sockets "
                      "always writable; a select set containing a closed socket (fileno() -1) raises ValueError = the loop is dead",
                      "every sibling echo request must be answered with the same xid and body",
-                     "one corrupted field per hostile stream; segmentation is per piece or one chunk (C02 covers segmentation)",
+                     "one corrupted field per hostile stream; recv chunks are one per message, one for the whole group, or (seg group) "
+                     "2-3 chunks with boundaries inside messages; at most two boundaries per stream (C02 covers finer segmentation of valid traffic)",
+                     "a step that carries a message of >= 2047 declared bytes gets a line budget of %d (decoding a 64 KiB list body is "
+                     "~2.5e5 lines of linear work) and %d select rounds" % (BUDGET_BIG, MAXIT_BIG),
+                     "zero-extended PACKET_IN instances carry total_len = length of the data (total_len below the data length is "
+                     "not a valid PACKET_IN); a foreign-version HELLO delivered without its body counts as that HELLO",
                      "switch side 'closed' means worker.closed or shutdown requested (OFConnection.close only requests shutdown)",
                      "well-formed messages of the wrong direction and HELLO with a foreign version are unconstrained on the hostile connection"]
   return rep
 
 
 def replay (cfg, data):
-  insts = R.catalogue()
+  insts = load_insts()
   case = dict(data); case.pop("note", None)
   if case.get("name"):                       # the instance is identified by name; the index is a cache
     case["inst"] = [i.name for i in insts].index(case["name"])
